@@ -1169,6 +1169,12 @@ func (a *nilAn) funcNonNil(v ssa.Value, b *ssa.BasicBlock) bool {
 	case *ssa.ChangeType:
 		return a.funcNonNil(x.X, b)
 	case *ssa.Phi:
+		// tables consulted in turn (fn, ok := t1[k]; if !ok { fn, ok = t2[k] }; if !ok { return }): the found
+		// flag is a phi over the same edges, its true edge dominates the use, and on every edge the flag is the
+		// lookup's own ok (or that lookup's ok holds on the edge)
+		if a.lookupPhiOk(x, b) {
+			return true
+		}
 		// a function chosen by a switch: every edge a non-nil function
 		if funcPhiBusy[x] {
 			return false // a loop-carried function variable: not decided
@@ -1220,6 +1226,21 @@ func (a *nilAn) mapValuesNonNil(m ssa.Value) bool {
 		if g, ok := ld.X.(*ssa.Global); ok {
 			return a.globalMapValuesNonNil(g)
 		}
+	}
+	if c, ok := m.(*ssa.Call); ok {
+		// a repo function that returns a map it has just built by a literal: every return is such a map
+		g := c.Call.StaticCallee()
+		if g == nil || !a.p.IsRepoFn(g) || !freshMapResult(g) {
+			return false
+		}
+		for _, b := range g.Blocks {
+			if ret, ok := b.Instrs[len(b.Instrs)-1].(*ssa.Return); ok {
+				if !a.mapValuesNonNil(ret.Results[0]) {
+					return false
+				}
+			}
+		}
+		return true
 	}
 	mk, ok := m.(*ssa.MakeMap)
 	if !ok {
@@ -1302,3 +1323,77 @@ func init() {
 }
 
 type callgraphNode = callgraph.Node
+
+// lookupPhiOk: see funcNonNil. fn = phi(extract0(lk_i)); some bool phi okp of the same block with
+// okp.Edges[i] = extract1(lk_i) (or lk_i's ok true on the way into the edge); b dominated by okp's true edge.
+func (a *nilAn) lookupPhiOk(fn *ssa.Phi, b *ssa.BasicBlock) bool {
+	blk := fn.Block()
+	for _, ins := range blk.Instrs {
+		okp, isPhi := ins.(*ssa.Phi)
+		if !isPhi {
+			break
+		}
+		if okp == fn || !isBoolType(okp.Type()) || len(okp.Edges) != len(fn.Edges) {
+			continue
+		}
+		if !domEdges(b, func(cond ssa.Value, tv bool) bool {
+			if cond == ssa.Value(okp) {
+				return tv
+			}
+			if u, ok := cond.(*ssa.UnOp); ok && u.Op == token.NOT && u.X == ssa.Value(okp) {
+				return !tv
+			}
+			return false
+		}) {
+			continue
+		}
+		all := true
+		for i, e := range fn.Edges {
+			ex, ok := e.(*ssa.Extract)
+			if !ok || ex.Index != 0 {
+				all = false
+				break
+			}
+			lk, ok := ex.Tuple.(*ssa.Lookup)
+			if !ok || !lk.CommaOk || !a.mapValuesNonNil(lk.X) {
+				all = false
+				break
+			}
+			own := false
+			if oe, ok := okp.Edges[i].(*ssa.Extract); ok && oe.Index == 1 && oe.Tuple == ssa.Value(lk) {
+				own = true
+			}
+			if !own && !a.lookupOkEdge(lk, blk.Preds[i], blk) {
+				all = false
+				break
+			}
+		}
+		if all {
+			return true
+		}
+	}
+	return false
+}
+
+// lookupOkEdge: the edge pred -> blk is taken only when lk's ok is true (pred ends in the If on it, or is
+// dominated by its true edge)
+func (a *nilAn) lookupOkEdge(lk *ssa.Lookup, pred, blk *ssa.BasicBlock) bool {
+	var okv ssa.Value
+	for _, ref := range *lk.Referrers() {
+		if ex, isEx := ref.(*ssa.Extract); isEx && ex.Index == 1 {
+			okv = ex
+		}
+	}
+	if okv == nil {
+		return false
+	}
+	if iff, ok := pred.Instrs[len(pred.Instrs)-1].(*ssa.If); ok {
+		if iff.Cond == okv && pred.Succs[0] == blk && pred.Succs[1] != blk {
+			return true
+		}
+		if u, ok := iff.Cond.(*ssa.UnOp); ok && u.Op == token.NOT && u.X == okv && pred.Succs[1] == blk && pred.Succs[0] != blk {
+			return true
+		}
+	}
+	return a.lookupOkGuard(lk, pred)
+}
